@@ -202,6 +202,8 @@ class AsyncFIXConnection:
             self._test_req_id = None
             self._message_last_time = 0.0
             self._max_seq_num_resend = 0
+            # bytes of a half received frame belong to the connection that is gone
+            self._msg_buffer = b""
 
             if logout_message is not None:
                 msg = FIXMessage(FMsg.LOGOUT)
